@@ -1,6 +1,7 @@
 //! C18 driver: the HTTP listener of metrics-exporter-prometheus over real loopback sockets.
 //!
-//! A *program* is an allowlist configuration (the strings handed to `add_allowed_address`, in order) and a list of
+//! A *program* is a builder call chain (`with_http_listener` / unrelated setters / `add_allowed_address(s)` in the order
+//! given; only the last `with_http_listener` carries the probed port) and a list of
 //! client operations on numbered connection slots: connect from a given 127.0.0.0/8 source address (the socket is
 //! bound to it before `connect`, so the server sees distinct peers), well-formed GETs, half requests, garbage,
 //! half-close, reset, orderly close, counter bumps, reads, probes (fresh connection + well-formed GET + read) and
